@@ -1,5 +1,7 @@
 // Package speaker drives a real bio-rd BGP server (protocols/bgp/server) through its public API
 // while the harness plays the remote BGP speakers over in-memory connections (internal/memconn).
+// Nothing here judges anything; oracles live in the checks (cmd/cNN). Used by C07, C19, C20, C22
+// and meant for C06, C21, C23, C24, C25, C26.
 //
 // # Pieces
 //
@@ -8,30 +10,47 @@
 //	    tcp.ListenerManagerI; any number of servers can live in one process, they share nothing
 //	    (except bio-rd's global logger, which is replaced by a discarding one).
 //	    srv.B (server.BGPServer), srv.VRF, srv.RIB(v4) are bio-rd's own objects.
+//	    srv.Dump(v4), srv.ClientCount(v4), srv.VRF.IsContributingASN(asn),
+//	    srv.AddStatic(pfx, nexthop) / RemoveStatic: a route bio-rd exports to every kind of peer.
 //
 //	p, err := srv.AddPeer(speaker.PeerConfig{LocalAS: 65000, PeerAS: 65001, IPv4: &speaker.Family{}})
-//	    passive peer (bio-rd waits for our connection). Kinds: iBGP (LocalAS == PeerAS), eBGP,
-//	    RRClient, RSClient; families IPv4 (classic or multiprotocol with AdvertiseIPv4MP) and IPv6;
-//	    add-path receive/send per family; hold time; RFC 9234 role; import/export chains
-//	    (nil = accept all; see Accept, Reject, SetLocalPref, Prepend).
+//	    passive peer (bio-rd waits for our connection). iBGP (LocalAS == PeerAS), eBGP, RRClient,
+//	    RSClient; families IPv4 (classic, or multiprotocol with AdvertiseIPv4MP) and IPv6; add-path
+//	    receive/send per family; hold time; RFC 9234 role; import/export chains (nil = accept
+//	    all; helpers Accept, Reject, SetLocalPref, SetMED, Prepend). Peer addresses default to
+//	    127.0.x.y (an active FSM's real dial fails at once there).
+//	    p.FSMs() hook snapshot of all FSMs; p.Dispose(timeout) = DisposePeer under a watchdog.
+//	    PeerConfig.Active + p.DeliverOutgoing(): bio-rd as the connecting side (FSM 0 gets the
+//	    connection through the hook VerifFSMDeliverConn after a start event) — provided for C24,
+//	    not exercised by C07/C19/C20/C22.
 //
-//	s := p.Connect()
+//	s, err := p.Connect()
 //	    new memconn connection with a distinct remote port, handed to bio-rd through AcceptCh();
-//	    returns once bio-rd created the FSM for it (s.FSMIndex) and took the connection.
-//	    bio-rd sends its OPEN at once and waits ONE second for ours (OpenSent hold time is 0).
+//	    returns once bio-rd created the FSM for it (s.FSMIndex: a passive peer gets one more FSM
+//	    per incoming connection and never drops one) and took the connection. bio-rd sends its
+//	    OPEN at once and waits ONE second for ours (the OpenSent hold time is 0 until then): under
+//	    heavy load retry (sessgen.Establish does) and treat a NOTIFICATION 4/x as "stalled".
 //
 //	err := s.Establish(p.DefaultOpen())     OPEN / KEEPALIVE exchange up to Established + Sync
+//	s.WaitSUTOpen(), s.SendOpen(o)          the steps one by one (C22 judges between them)
 //	s.Send(raw) / s.SendUpdate(u) / s.SendKeepalive() / s.SendNotification(code, sub)
 //	r := s.Sync()                           the synchronisation point, see below
-//	s.Messages()                            everything bio-rd wrote so far, cut into messages
-//	s.Updates() / s.Notifications()         decoded with internal/wire under the negotiated options
-//	s.Info()                                hook snapshot of this connection's FSM
-//	s.Established()                         FSM state is "established" AND bio-rd has not closed
-//	                                        the connection (a ceased FSM never republishes its
-//	                                        state, so the state alone is not enough)
-//	s.RIBIn(v4) / s.RIBOut(v4)              Adj-RIB dumps of this FSM (nil when not attached)
-//	srv.Dump(v4), srv.ClientCount(v4), srv.VRF.IsContributingASN(asn)
-//	srv.AddStatic(pfx, nexthop)             seed a route that bio-rd will export to every peer
+//	s.Barrier(timeout)                      only the barrier event
+//	s.Event(server.ManualStop, timeout)     administrative events through the hook
+//	s.Messages() / s.WaitMessages(n, t) / s.WaitMessage(t, pred)   what bio-rd wrote, framed
+//	s.Updates() / s.Notifications()         decoded with internal/wire under s.Neg.RecvOpts()
+//	s.Neg                                   speaker.Negotiate(bio-rd's OPEN, our OPEN): the RFC
+//	                                        reference (hold time, AS4, MP, add-path per direction)
+//	s.Info()                                hook snapshot (VerifFSMInfo) of this connection's FSM
+//	s.Established()                         FSM state is "established" AND it holds this connection
+//	                                        AND bio-rd has not closed it (a ceased FSM never
+//	                                        republishes its state, so the state alone is not enough)
+//	s.RIBIn(v4) / s.RIBOut(v4)              Adj-RIB dumps of THIS FSM (BGPServer.GetRIBIn only answers
+//	                                        for peers with exactly one FSM and panics when none is attached)
+//	s.Conn                                  the memconn.Conn: FailWrites, FailReads, PeerClose, IsClosed, …
+//
+//	speaker.Views(dump), FromSource, FieldsOfPath / FieldsOfWire
+//	    attribute projections of table dumps and of wire attributes in one vocabulary.
 //
 // # Synchronisation point
 //
@@ -40,9 +59,21 @@
 // then sends a barrier event into the FSM's event channel (hook VerifFSMSync), which is only
 // accepted at the top of a state loop. When both happened every message injected before Sync
 // has been processed completely, including the table updates it caused, because those run
-// synchronously on the FSM goroutine. If bio-rd closed the connection instead, Sync reports
-// Closed and still tries the barrier (accepted by an FSM that went back to Idle; never accepted
-// by an FSM that ceased — that is reported as Barrier == false after CeaseGrace).
+// synchronously on the FSM goroutine (the initial table dump of a new session included; only the
+// update sender's 5 ms ticker is asynchronous). If bio-rd closed the connection instead, Sync
+// reports Closed and still tries the barrier (accepted by an FSM that went back to Idle; never
+// accepted by an FSM that ceased — reported as Barrier == false after CeaseGrace). Every exit
+// handler of bio-rd closes the connection after it cleaned up, so "closed by bio-rd" alone also
+// orders the observation behind the handler's table operations.
 //
-// Nothing here judges anything; oracles live in the checks (cmd/cNN).
+// Do not send a message to an FSM that is in Idle with the connection still open and then Sync:
+// nobody takes the message from the receiver, the reader never becomes idle (Sync runs into
+// StepTimeout). Sync after the step that may be rejected, look at the state, then go on.
+//
+// # Companions
+//
+// internal/sessgen: JSON-serialisable session configurations negotiated for real (Cfg, RandCfg,
+// NewSession, Establish) and descriptions of valid UPDATEs (UpdSpec, RandAttrs).
+// internal/batch: the child-process protocol for crash-prone workloads (Lanes × Workers, side
+// file, attribution, Drive glue to internal/vf).
 package speaker
